@@ -19,7 +19,9 @@ Definition refines_step (s : store) (o : op) (s' : store) (r : tres) : Prop :=
   | ORefs, TList r =>
     s' = s /\ exists l, r = Ok l /\ forall n v, In (n, v) l <-> (listed n = true /\ abs s n = Some v)
   | ORm n, TUnit r =>
-    (r = Er EFs /\ s' = s) \/ (r = Ok tt /\ abs_eq (abs s') (m_del (abs s) n))
+    (* the name leaves the map even when the OS refuses to remove the loose path
+       (packed-refs is rewritten first; no loose file of that name can exist then) *)
+    (r = Er EFs \/ r = Ok tt) /\ abs_eq (abs s') (m_del (abs s) n)
   | OPack, TUnit r => r = Ok tt /\ abs_eq (abs s') (abs s)
   | _, _ => False
   end.
@@ -41,7 +43,7 @@ Proof.
   - cbn [refines_step]. repeat split. apply get_ref_spec; [assumption|now apply name_ok_valid].
   - cbn [refines_step]. split; [reflexivity|]. destruct (list_refs_spec s Hw) as [l [-> Hl]]. now exists l.
   - pose proof (remove_ref_spec s n Hw Ho) as H. destruct (remove_ref s n) as [s' r].
-    cbn [refines_step]. destruct H as [H|[H1 [_ H2]]]; [now left|right; auto].
+    cbn [refines_step]. destruct H as [H1 [_ H2]]. auto.
   - pose proof (pack_refs_spec s Hw) as H. destruct (pack_refs s) as [s' r].
     cbn [refines_step]. destruct H as [H1 [_ H2]]. auto.
 Qed.
@@ -57,7 +59,7 @@ Proof.
     + pose proof (set_ref_plain s n v Hw Hn Hv) as H. destruct (set_ref s n v None) as [s' r].
       cbn [fst]. destruct H as [[_ ->]|[_ [H2 _]]]; auto.
   - pose proof (remove_ref_spec s n Hw Ho) as H. destruct (remove_ref s n) as [s' r].
-    cbn [fst]. destruct H as [[_ ->]|[_ [H2 _]]]; auto.
+    cbn [fst]. now destruct H as [_ [H2 _]].
   - pose proof (pack_refs_spec s Hw) as H. destruct (pack_refs s) as [s' r].
     cbn [fst]. now destruct H as [_ [H2 _]].
 Qed.
